@@ -1076,14 +1076,15 @@ Qed.
 
 Lemma uarray_reserve_total e nh w h n :
   env_ok e -> winv e nh w -> h < nh ->
-  exists w1, uarray_reserve e w h n = Ok w1 /\ winv e nh w1.
+  exists w1 ok, uarray_reserve e w h n = Ok (w1, ok) /\ winv e nh w1.
 Proof.
   intros EO WI Hh. unfold uarray_reserve.
   destruct (handle w h) as [id|] eqn:HH.
-  - pose proof (op_detach_total e nh w h (n * esz e KA) EO WI Hh) as (w' & o & E & WI').
+  - set (n' := if n <? uarray_length e w h then uarray_length e w h else n).
+    pose proof (op_detach_total e nh w h (n' * esz e KA) EO WI Hh) as (w' & o & E & WI').
     unfold on_buf in E. rewrite HH in E.
     pose proof WI as (_ & RI & _). destruct (rinv_handle _ _ _ RI HH) as (b & HB & _). rewrite HB in E.
-    destruct (detach e w id (n * esz e KA)) as [[w2 r]| |]; cbn [bind] in *; try discriminate.
+    destruct (detach e w id (n' * esz e KA)) as [[w2 r]| |]; cbn [bind] in *; try discriminate.
     destruct r as [nid|]; injection E as <- _; eauto.
   - pose proof (reserve_distinct_none e nh w h (n * esz e KA) (Some KA) EO WI Hh HH) as (w' & o & E & WI').
     (* same allocation, but with the NoCopy flag of buffer::create_unique *)
@@ -1091,7 +1092,7 @@ Proof.
     destruct (alloc e w (n * esz e KA) false true (Some KA)) as [w1 id] eqn:A.
     assert (W1 : w1 = fst (alloc e w (n * esz e KA) false true (Some KA))) by (rewrite A; reflexivity).
     assert (ID : id = length (wheap w)) by (change id with (snd (w1, id)); rewrite <- A; reflexivity).
-    exists (set_hnd w1 h (Some id)). split; [reflexivity|].
+    exists (set_hnd w1 h (Some id)), true. split; [reflexivity|].
     subst w1. apply (attach_fresh e nh _ m h id); auto.
     + apply hinv_alloc; assumption.
     + intros j. rewrite refs_alloc, cnt_alloc, <- ID. pose proof (RI j) as RJ.
@@ -1106,8 +1107,9 @@ Proof.
   intros EO WI Hh. unfold op_uinsert.
   destruct (negb (uarray_applicable w h)); [exists w, OSkip; split; [reflexivity|assumption]|].
   destruct (uarray_reserve_total e nh w h
-              ((if uarray_length e w h <? pos then pos else uarray_length e w h) + 1) EO WI Hh) as (w1 & E & WI1).
-  rewrite E. cbn [bind]. apply on_local_total; auto. apply do_insert_total.
+              ((if uarray_length e w h <? pos then pos else uarray_length e w h) + 1) EO WI Hh) as (w1 & ok & E & WI1).
+  rewrite E. cbn [bind]. destruct ok; [|exists w1, ORefused; split; [reflexivity|assumption]].
+  apply on_local_total; auto. apply do_insert_total.
 Qed.
 
 Lemma op_uresize_total e nh w h n :
@@ -1115,8 +1117,9 @@ Lemma op_uresize_total e nh w h n :
 Proof.
   intros EO WI Hh. unfold op_uresize.
   destruct (negb (uarray_applicable w h)); [exists w, OSkip; split; [reflexivity|assumption]|].
-  destruct (uarray_reserve_total e nh w h n EO WI Hh) as (w1 & E & WI1).
-  rewrite E. cbn [bind]. apply on_local_total; auto. apply do_setlen_total.
+  destruct (uarray_reserve_total e nh w h n EO WI Hh) as (w1 & ok & E & WI1).
+  rewrite E. cbn [bind]. destruct ok; [|exists w1, ORefused; split; [reflexivity|assumption]].
+  apply on_local_total; auto. apply do_setlen_total.
 Qed.
 
 (* ---------------------------------------------------------------- one step, histories *)
